@@ -168,16 +168,30 @@ func H_C20_Reopen() {
 		q[0] = &linkedNode{node: newVNode(), nodeID: NodeID(nondetString()), next: []*linkedNode{q[1]}}
 		gu.roots.Store(PipelineID(nondetString()), &registeredPipeline{rootNode: q[0], registrationPolicy: AllowOverwrite})
 	}
-	// collect all linked nodes and give each a symbolic Reopen outcome
+	// two pipelines of one type may share a node object that is not their last (a common head filter / formatter): each
+	// pipeline's remaining nodes are reopened all the same
+	if s.p.present && s.o.present && s.p.n >= 2 && s.o.n >= 2 && nondetBool() {
+		s.o.ln[0].node = s.p.ln[0].node
+		verifNote("shared head node")
+	}
+	// collect all linked nodes (each object once) and give each a symbolic Reopen outcome
 	var all []*vNode
+	add := func(n *vNode) {
+		for _, x := range all {
+			if x == n {
+				return
+			}
+		}
+		all = append(all, n)
+	}
 	if s.p.present {
 		for i := 0; i < s.p.n; i++ {
-			all = append(all, s.p.ln[i].node.(*vNode))
+			add(s.p.ln[i].node.(*vNode))
 		}
 	}
 	if s.o.present {
 		for i := 0; i < s.o.n; i++ {
-			all = append(all, s.o.ln[i].node.(*vNode))
+			add(s.o.ln[i].node.(*vNode))
 		}
 	}
 	if hasU {
@@ -310,7 +324,7 @@ func H_C01_linkNodes() {
 type pNode struct {
 	pipe, pos int
 	typ       NodeType
-	outcome   int // 0 pass same event, 1 pass a new event, 2 drop, 3 error, 4 error together with an event
+	outcome   int // 0 pass same event, 1 pass a new event, 2 drop, 3 error, 4 error together with an event, 5/6 the node's own context.DeadlineExceeded / Canceled
 	calls     int
 	got       *Event
 	ret       *Event
@@ -331,6 +345,13 @@ func (n *pNode) Process(ctx context.Context, e *Event) (*Event, error) {
 		// an error is an error, whatever comes with it
 		n.ret = &Event{Type: e.Type, Payload: n}
 		n.err = &vErr{"process"}
+	case 5:
+		// a node's own context-type error (its private deadline), while the Send's context is alive, is a warning like any other
+		n.ret = nil
+		n.err = context.DeadlineExceeded
+	case 6:
+		n.ret = nil
+		n.err = context.Canceled
 	default:
 		n.ret = nil
 		n.err = &vErr{"process"}
@@ -389,7 +410,7 @@ func H_C01_process_seq() {
 		for i := 0; i < ln; i++ {
 			nd := &pNode{pipe: p, pos: i, typ: NodeType(nondetInt()), outcome: nondetInt()}
 			verifAssume(nd.outcome >= 0)
-			verifAssume(nd.outcome <= 4)
+			verifAssume(nd.outcome <= 6)
 			if i == ln-1 {
 				verifAssume(nd.typ == NodeTypeSink)
 			}
